@@ -145,55 +145,67 @@ def run(ctx):
     for k in range(m):
         integ = integs[k % len(integs)]
         c = gen_case(rng); c["integrator"] = integ
-        c["targets"] = c["targets"][:1]; tm = c["targets"][0]
+        multi = (k % 3 == 2)          # every third case: a sequence of calls on one simulation (state carried across calls)
+        if not multi: c["targets"] = c["targets"][:1]
+        elif len(c["targets"]) < 2:
+            sg = rng.choice([1, 1, -1])
+            c["targets"] = c["targets"] + [c["targets"][-1] + sg * abs(c["dt"]) * rng.choice([0.32, 0.7, 1.0, 2.5, 7.3])]
+        tm = c["targets"][0]
         if c["events"] and rng.random() < 0.6 and integ in fixed and abs(tm - c["t0"]) < 20:
-            nsteps = run_lib(rebound, dict(c, events=[]))[2]
+            nsteps = run_lib(rebound, dict(c, events=[], targets=c["targets"][:1]))[2]
             if nsteps >= 1: c["events"] = [(nsteps, c["events"][0][1])]
-        if integ in ("ias15", "bs", "mercurius", "trace") and abs(tm - c["t0"]) > 20:
+        if integ in ("ias15", "bs", "mercurius", "trace") and any(abs(a - b) > 20 for a, b in zip([c["t0"]] + c["targets"], c["targets"])):
             continue
         sim = new_sim(rebound, integ, c["t0"], c["dt"])
-        ts = []
-        ev = dict(c["events"]); steps0 = sim.steps_done
-        def hb(simp, ev=ev, ts=ts, steps0=steps0):
-            s = simp.contents
-            ts.append(s.t)
-            kk = s.steps_done - steps0
-            if kk in ev and s._status < 0:
-                s._status = ev[kk]
-        sim.heartbeat = hb
-        p0 = [(p.x, p.y, p.z, p.vx, p.vy, p.vz) for p in sim.particles]
-        try:
-            sim.integrate(tm, exact_finish_time=c["exact"])
-        except Exception:
-            pass
-        st = sim._status
-        ctx.case(key=("oracle", integ, c["exact"], st))
-        sign = 1.0 if tm > c["t0"] else -1.0
-        dt_user = math.copysign(c["dt"], sign) if tm != c["t0"] else c["dt"]
-        why = None
-        if st == 0:
-            if c["exact"] and tm != c["t0"]:
-                tscale = 1e-12 * abs(tm)
-                if tscale < 1e-200: tscale = 1e-12
-                if not (sim.t == tm or abs(sim.t - tm) < tscale): why = "exact finishing missed the target: t=%r tmax=%r" % (sim.t, tm)
-            elif not c["exact"] and tm != c["t0"] and integ in fixed:
-                if not (sign * sim.t >= sign * tm and sign * (sim.t - tm) < abs(c["dt"]) * (1 + 1e-9)):
-                    why = "non-exact finishing: t=%r not in [tmax, tmax+|dt|)" % sim.t
-        if tm == c["t0"] and st == 0:
-            p1 = [(p.x, p.y, p.z, p.vx, p.vy, p.vz) for p in sim.particles]
-            if sim.t != c["t0"] or sim.dt != c["dt"] or sim.steps_done != steps0 or any(a != b for a, b in zip(p0, p1)):
-                why = "integrate to the current time is not a no-op"
-        if any(sign * (b - a) < 0 for a, b in zip(ts, ts[1:])) and tm != c["t0"]:
-            why = "time moved against the direction of integration"
-        if integ in fixed and c["exact"] and sim.dt != dt_user and st >= 0:
-            why = "step size not restored: dt=%r, user dt=%r, status=%d" % (sim.dt, dt_user, st)
-        if st > 0 and ev:
-            kk = sorted(ev)[0]
-            if st != ev[kk] or sim.steps_done - steps0 != kk:
-                # the event may legitimately come after the time-based exit
-                if sim.steps_done - steps0 > kk: why = "status does not name the first boundary that raised an exit condition"
-        if why:
-            fails.append({"why": why, "case": c, "final": {"t": sim.t, "dt": sim.dt, "status": st, "steps": sim.steps_done - steps0}})
+        ev = dict(c["events"])
+        for ci, tm in enumerate(c["targets"]):
+            ts = []
+            steps0 = sim.steps_done
+            t_before, dt_before = sim.t, sim.dt
+            evc = ev if ci == 0 else {}
+            def hb(simp, ev=evc, ts=ts, steps0=steps0):
+                s = simp.contents
+                ts.append(s.t)
+                kk = s.steps_done - steps0
+                if kk in ev and s._status < 0:
+                    s._status = ev[kk]
+            sim.heartbeat = hb
+            p0 = [(p.x, p.y, p.z, p.vx, p.vy, p.vz) for p in sim.particles]
+            try:
+                sim.integrate(tm, exact_finish_time=c["exact"])
+            except Exception:
+                pass
+            st = sim._status
+            ctx.case(key=("oracle", integ, c["exact"], st, min(ci, 1)))
+            sign = 1.0 if tm > t_before else -1.0
+            dt_user = math.copysign(dt_before, sign) if tm != t_before else dt_before
+            why = None
+            if st == 0:
+                if c["exact"] and tm != t_before:
+                    tscale = 1e-12 * abs(tm)
+                    if tscale < 1e-200: tscale = 1e-12
+                    if not (sim.t == tm or abs(sim.t - tm) < tscale): why = "exact finishing missed the target: t=%r tmax=%r" % (sim.t, tm)
+                elif not c["exact"] and tm != t_before and integ in fixed:
+                    if not (sign * sim.t >= sign * tm and sign * (sim.t - tm) < abs(dt_before) * (1 + 1e-9)):
+                        why = "non-exact finishing: t=%r not in [tmax, tmax+|dt|)" % sim.t
+            if tm == t_before and st == 0:
+                p1 = [(p.x, p.y, p.z, p.vx, p.vy, p.vz) for p in sim.particles]
+                if sim.t != t_before or sim.dt != dt_before or sim.steps_done != steps0 or any(a != b for a, b in zip(p0, p1)):
+                    why = "integrate to the current time is not a no-op"
+            if any(sign * (b - a) < 0 for a, b in zip(ts, ts[1:])) and tm != t_before:
+                why = "time moved against the direction of integration"
+            if integ in fixed and c["exact"] and sim.dt != dt_user and st >= 0:
+                why = "step size not restored: dt=%r, user dt=%r, status=%d" % (sim.dt, dt_user, st)
+            if st > 0 and evc:
+                kk = sorted(evc)[0]
+                if st != evc[kk] or sim.steps_done - steps0 != kk:
+                    # the event may legitimately come after the time-based exit
+                    if sim.steps_done - steps0 > kk: why = "status does not name the first boundary that raised an exit condition"
+            if why:
+                fails.append({"why": why, "case": c, "call": ci, "before": {"t": t_before, "dt": dt_before},
+                              "final": {"t": sim.t, "dt": sim.dt, "status": st, "steps": sim.steps_done - steps0}})
+            if why or st != 0:
+                break
     # split == direct, bitwise, fixed-step, exact_finish_time=0
     for k in range(ctx.scale(60, 600)):
         integ = ["leapfrog", "whfast", "saba", "eos", "janus", "none"][k % 6]
